@@ -21,4 +21,8 @@ type Convergen interface {
 	// :map $2 Detail.Owner
 	// :map $1.Name Lvl
 	WithArgs(src *Row, owner string) *Entry
+	// :conv ToAddrRow Inner.Addr Other
+	ThroughPointer(*Deep) *Flat
+	// :recv e
+	Clone(*Node) (elem *Node)
 }
